@@ -324,6 +324,17 @@ def empty_split_probs(facts, b):
         if not any(x == ("param", 1) for x in walk(r)):
             probs.append("a path returns a handle that is not derived from self (%s): the result does not keep the address" % fmt_expr(r)[:60])
             break
+    # a part cut with `self.slice(range)`: `slice` answers an empty range with `Bytes::new()`, a handle at a static address - so the
+    # range must be known non-empty where it is used (split_off: at < len; split_to: 0 < at)
+    for bi, t in b.calls():
+        fn = callee(t)
+        if fn is None or b.blocks[bi]["cleanup"] or fn["name"] != "slice" or "bytes::Bytes" not in (fn.get("res") or fn).get("path", ""):
+            continue
+        ctx = Ctx(b, bi, facts)
+        nonempty = ctx.lt(at, selflen) if b.id.endswith("split_off") else ctx.lt(("const", 0), at)
+        if not nonempty:
+            probs.append("a part is cut with self.slice(..) where the range may be empty (%s): slice returns Bytes::new() for it, not an empty handle at self.ptr + at" % (
+                "at == len not excluded" if b.id.endswith("split_off") else "at == 0 not excluded"))
     for (bi, arg, ctx, at_len, at_zero) in sites:
         if arg == selfptr:
             off = ("const", 0)
